@@ -31,8 +31,9 @@ POST = 4
 
 
 class Cfg:
-    def __init__(self, name, C, epochs, chunk=1, K=1, classes=True):
+    def __init__(self, name, C, epochs, chunk=1, K=1, classes=True, minimize=False):
         self.name, self.C, self.epochs, self.chunk, self.K, self.classes = name, C, list(epochs), chunk, K, classes
+        self.minimize = minimize          # Engine(minimize_transition_infos=True): every info goes through its class's minimize() before it is stored
         self.T = sum(d for _, d, _ in epochs)
         self.post_cols = []
         g = 0
@@ -42,11 +43,11 @@ class Cfg:
             g += d
 
     def to_json(self):
-        return dict(name=self.name, C=self.C, epochs=self.epochs, chunk=self.chunk, K=self.K, classes=self.classes)
+        return dict(name=self.name, C=self.C, epochs=self.epochs, chunk=self.chunk, K=self.K, classes=self.classes, minimize=self.minimize)
 
     @classmethod
     def from_json(cls, d):
-        return cls(d["name"], d["C"], [tuple(e) for e in d["epochs"]], d["chunk"], d["K"], d["classes"])
+        return cls(d["name"], d["C"], [tuple(e) for e in d["epochs"]], d["chunk"], d["K"], d["classes"], d.get("minimize", False))
 
 
 IDENTS = ["kz", "ka", "km"]       # kernel identifiers in the order the kernels are added: deliberately not alphabetical
@@ -99,8 +100,11 @@ def build_results(cfg, codes, mk, classes):
         for start in range(0, d, cfg.chunk):
             cols = list(range(g + start, g + min(start + cfg.chunk, d)))
             z = np.zeros((cfg.C, len(cols)))
-            ti.append({ident(cfg, k): DefaultTransitionInfo(error_code=mk([[codes[k][c][t] for t in cols] for c in range(cfg.C)]), acceptance_prob=z, position_moved=z)
-                       for k in range(cfg.K)})
+            infos = {ident(cfg, k): DefaultTransitionInfo(error_code=mk([[codes[k][c][t] for t in cols] for c in range(cfg.C)]), acceptance_prob=z, position_moved=z)
+                     for k in range(cfg.K)}
+            if cfg.minimize:
+                infos = {k_: v_.minimize() for k_, v_ in infos.items()}
+            ti.append(infos)
             pos.append({"x": np.asarray([[100.0 * c + t for t in cols] for c in range(cfg.C)])})
         g += d
     return SamplingResults(positions=pos, transition_infos=ti, generated_quantities=Option(None), tuning_infos=Option(None), kernel_states=Option(None),
@@ -126,6 +130,9 @@ def patch_env():
                 return np.concatenate(xs, axis=axis)
             return super().concatenate(xs, axis=axis, **kw)
     pytree.jnp = Shim(jnp)
+    import liesel.goose.kernel as kmod
+    if hasattr(kmod, "jnp"):             # whatever array module the info classes use sees the proxy arrays as well
+        kmod.jnp = Shim(kmod.jnp)
     sm._create_quantity_dict = lambda *a, **k: {}
     _PATCHED.append(True)
 
@@ -596,7 +603,8 @@ def configs(tier):
          Cfg("1 chain, 2 kernels: burn-in 1, posterior 1", 1, [(3, 1, 1), (POST, 1, 1)], K=2),
          Cfg("2 chains: posterior 2 only, chunk 1", 2, [(POST, 2, 1)]),
          Cfg("1 chain: slow 2 (thinning 2), burn-in 1, no kernel classes", 1, [(2, 2, 2), (3, 1, 1), (POST, 1, 1)], classes=False),
-         Cfg("1 chain: burn-in 1, two posterior epochs (1 and 2 transitions)", 1, [(3, 1, 1), (POST, 1, 1), (POST, 2, 1)])]
+         Cfg("1 chain: burn-in 1, two posterior epochs (1 and 2 transitions)", 1, [(3, 1, 1), (POST, 1, 1), (POST, 2, 1)]),
+         Cfg("2 chains: burn-in 1, posterior 1, transition infos minimized", 2, [(3, 1, 1), (POST, 1, 1)], minimize=True)]
     if tier == "thorough":
         q += [Cfg("2 chains: burn-in 1, posterior 2 (chunk 2)", 2, [(3, 1, 1), (POST, 2, 1)], chunk=2),
               Cfg("2 chains: slow 2, posterior 1", 2, [(2, 2, 1), (POST, 1, 1)]),
